@@ -126,6 +126,20 @@ fn q_op_clone_small() {
     kani::assume(n <= 1);
     body_clone(prebuilt(n, 2));
 }
+// clone under the colliding hasher: every key has the same hash, the clone still holds every entry, in order (seed C14-i:
+// de-duplication by hash instead of Eq)
+#[kani::proof]
+#[kani::unwind(6)]
+fn q_op_clone_collide() {
+    let c: LruCache<u8, SV, CH> = prebuilt_in::<CH>(2, 4);
+    let o = order(&c);
+    let size = c.current_size();
+    let d = c.clone();
+    coherent(&d);
+    assert!(order(&d) == o, "clone under a colliding hasher has different entries or a different recency order");
+    assert!(d.len() == c.len() && d.current_size() == size && d.max_size() == c.max_size());
+    assert!(order(&c) == o);
+}
 #[kani::proof]
 #[kani::unwind(6)]
 fn t_op_clone() { body_clone(state_t(3)); }
